@@ -97,6 +97,9 @@ func VerifC17_Response() {
 		return []byte{tag, c}
 	}
 	hv, cv, rbv, mv := sv('h'), sv('c'), sv('r'), sv('m')
+	if vrt.Bool() {
+		mv = mv[:0] // an empty value still travels through the whole target list
+	}
 	var in []byte
 	if pres&1 != 0 {
 		in = vrt.PutBE32(vrt.PutField(in, vrt.TI32, 1), int(code))
